@@ -17,7 +17,7 @@ RULE = (
     "non-trivial = at least one mutation succeeded and >=2 ops"
 )
 REQUIRED = ["ops_checked", "invariant_evals", "copies_checked", "raises_checked",
-            "generated_id_after_caller_id"]
+            "generated_id_after_caller_id", "merged_from_networks_checked"]
 ASSUMPTIONS = [
     "species labels follow the documented grammar (letters/digits/_ starting with a letter)",
     "a species kept with prune_orphans=False may legitimately disappear later when a reaction "
@@ -235,6 +235,9 @@ def other_graph():
     return O
 
 
+MERGED_FROM = []   # (network that was merged into the store under test, its state right after the merge)
+
+
 def apply_real(H, op):
     k = op[0]
     try:
@@ -260,7 +263,9 @@ def apply_real(H, op):
         elif k == "remove_species":
             H.remove_species(op[1], prune_orphans=op[2])
         elif k == "merge":
-            H.merge(other_graph(), prefix_edges=op[1])
+            O = other_graph()
+            H.merge(O, prefix_edges=op[1])
+            MERGED_FROM.append((O, real_state(O)))
         elif k == "assign_mol":
             H.assign_mol(op[1], op[2])
         elif k == "set_mol_map":
@@ -304,6 +309,7 @@ def run_sequence(ctx, ops):
 
     H = CRNHyperGraph()
     M = Model()
+    del MERGED_FROM[:]
     copies = []
     mutated = 0
     caller_ids = set()
@@ -358,6 +364,23 @@ def run_sequence(ctx, ops):
         p = compare(H, M)
         if p:
             return (f"after {op}: {p}", step)
+    # the networks that were merged in stay independent objects: edits of the store did not reach them, and editing
+    # them now does not reach the store
+    for O, snap in MERGED_FROM:
+        ctx.count("merged_from_networks_checked")
+        if real_state(O) != snap:
+            del MERGED_FROM[:]
+            return (f"a network that was merged into the store was changed by later edits of the store: {real_state(O)['edges']} (was {snap['edges']})", len(ops))
+        for sp_ in sorted(O.species)[:2]:
+            try:
+                O.remove_species(sp_)
+            except KeyError:
+                pass
+        p = compare(H, M)
+        if p:
+            del MERGED_FROM[:]
+            return (f"editing a network after it was merged into the store changed the store: {p}", len(ops))
+    del MERGED_FROM[:]
     for Hc, Mc in copies:
         ctx.count("copies_checked")
         p = compare(Hc, Mc)
